@@ -16,6 +16,7 @@ src: dlinked_list.c
 tier: B
 backend: cadical
 unwind: 10
+unwind_thorough: 12
 bound: list length <= 4, any key
 funcs: spif_dlinked_list_append
 */
@@ -26,6 +27,7 @@ src: dlinked_list.c
 tier: B
 backend: cadical
 unwind: 10
+unwind_thorough: 12
 bound: list length <= 4, any key
 funcs: spif_dlinked_list_prepend
 */
@@ -36,6 +38,7 @@ src: dlinked_list.c
 tier: B
 backend: cadical
 unwind: 10
+unwind_thorough: 12
 bound: list length 1..5; every index whose normalised position p is < 0 (refused) or 0 <= p <= len/2, p not in {len-1, len}; any key
 funcs: spif_dlinked_list_insert_at
 */
@@ -46,6 +49,7 @@ src: dlinked_list.c
 tier: B
 backend: cadical
 unwind: 10
+unwind_thorough: 12
 bound: list length 1..5; normalised position len < p <= len+2 (1..2 placeholders); any key
 funcs: spif_dlinked_list_insert_at
 */
@@ -56,6 +60,7 @@ src: dlinked_list.c
 tier: B
 backend: cadical
 unwind: 10
+unwind_thorough: 12
 bound: list length 2..5; normalised position p == len-1 (idx == len-1 or idx == -1); any key
 funcs: spif_dlinked_list_insert_at
 */
@@ -66,6 +71,7 @@ src: dlinked_list.c
 tier: B
 backend: cadical
 unwind: 10
+unwind_thorough: 12
 bound: list length 1..5; position p == len (insert at the end); any key
 funcs: spif_dlinked_list_insert_at
 */
@@ -76,6 +82,7 @@ src: dlinked_list.c
 tier: B
 backend: cadical
 unwind: 10
+unwind_thorough: 12
 bound: list length 5; normalised position len/2 < p < len-1 (the walk from the tail; first possible at length 5); any key
 funcs: spif_dlinked_list_insert_at
 */
@@ -86,6 +93,7 @@ src: dlinked_list.c
 tier: B
 backend: cadical
 unwind: 10
+unwind_thorough: 12
 bound: the empty list; every index value <= 0; any key
 funcs: spif_dlinked_list_insert_at
 */
@@ -96,6 +104,7 @@ src: dlinked_list.c
 tier: B
 backend: cadical
 unwind: 10
+unwind_thorough: 12
 bound: the empty list; index 1..2 (placeholders must be created); any key
 funcs: spif_dlinked_list_insert_at
 */
@@ -106,6 +115,7 @@ src: dlinked_list.c
 tier: B
 backend: cadical
 unwind: 10
+unwind_thorough: 12
 bound: list length <= 4, all 2^32 index values
 funcs: spif_dlinked_list_remove_at
 */
@@ -116,6 +126,7 @@ src: dlinked_list.c
 tier: B
 backend: cadical
 unwind: 10
+unwind_thorough: 12
 bound: list length <= 4, all 2^32 index values
 funcs: spif_dlinked_list_get
 */
@@ -126,6 +137,7 @@ src: dlinked_list.c
 tier: B
 backend: cadical
 unwind: 10
+unwind_thorough: 12
 bound: list length <= 4, all key values incl. duplicates and placeholders
 funcs: spif_dlinked_list_remove
 */
@@ -136,6 +148,7 @@ src: dlinked_list.c
 tier: B
 backend: cadical
 unwind: 10
+unwind_thorough: 12
 bound: list length <= 4, all key values incl. duplicates and placeholders
 funcs: spif_dlinked_list_index, spif_dlinked_list_find, spif_dlinked_list_contains
 */
@@ -146,6 +159,7 @@ src: dlinked_list.c
 tier: B
 backend: cadical
 unwind: 10
+unwind_thorough: 12
 bound: list length 1..4
 funcs: spif_dlinked_list_reverse
 */
@@ -156,6 +170,7 @@ src: dlinked_list.c
 tier: B
 backend: cadical
 unwind: 10
+unwind_thorough: 12
 bound: the empty list
 funcs: spif_dlinked_list_reverse
 */
@@ -166,6 +181,7 @@ src: dlinked_list.c
 tier: B
 backend: cadical
 unwind: 10
+unwind_thorough: 12
 bound: list length <= 4
 funcs: spif_dlinked_list_to_array
 */
@@ -176,6 +192,7 @@ src: dlinked_list.c, obj.c
 tier: B
 backend: cadical
 unwind: 10
+unwind_thorough: 12
 bound: list length <= 4
 funcs: spif_dlinked_list_iterator, spif_dlinked_list_iterator_new, spif_dlinked_list_iterator_init, spif_dlinked_list_iterator_has_next, spif_dlinked_list_iterator_next, spif_dlinked_list_iterator_del
 */
